@@ -32,7 +32,8 @@ class Monitor(object):
         self.reg_after_meet = 0
 
     def bad(self, code, msg):
-        if len(self.violations) < 10:
+        # a few of each kind (a flood of one kind must not crowd out the first report of another)
+        if sum(1 for c, _ in self.violations if c == code) < 4 and len(self.violations) < 40:
             self.violations.append((code, msg))
 
     def feed(self, ev):
